@@ -68,4 +68,27 @@ def run(ctx):
         for ev in tops:
             if root(ev.token)[0] == "new":
                 r.ok("Table.render: drawer consumes %s" % show(ev.token))
+
+    # ---------------------------------------------------------------- R3
+    r = ctx.rule("C14-R3", "SIBLING", "the border characters whose width is budgeted are the ones that are drawn "
+                 "between the cells, and every width that pads a cell is measured format-aware", reference=2)
+    gcw = table.methods.get("_get_cell_wrapper")
+    ctx.require(gcw is not None, "Table._get_cell_wrapper missing")
+    measured = sorted({n.attr for n in walk_no_nested(gcw.node) if isinstance(n, ast.Attribute) and n.attr.endswith("_char")})
+    drawn = sorted({n.attr for n in walk_no_nested(draw_row.node) if isinstance(n, ast.Attribute) and n.attr.endswith("_char") and n.attr != "padding_char"})
+    if measured == drawn and measured:
+        r.ok("budgeted %s == drawn %s" % (measured, drawn))
+    else:
+        r.fail(gcw, gcw.node, "budget %s vs drawn %s" % (measured, drawn), "the width budget counts the characters %s but the rows are drawn with %s: with a style where they "
+               "differ in width the table is wider than the terminal" % (measured, drawn))
+    for c in q.calls(draw_row):
+        if isinstance(c.func, ast.Name) and c.func.id == "get_string_length":
+            second = c.args[1] if len(c.args) > 1 else q.kwarg(c, "formatter")
+            first = c.args[0] if c.args else None
+            formatted_first = isinstance(first, ast.Call) and isinstance(first.func, ast.Attribute) and first.func.attr == "format"
+            if second is not None and not formatted_first:
+                r.ok("draw_row: %s measured with the formatter" % norm(first))
+            else:
+                r.fail(draw_row, c, norm(c), "the pad width of a cell is measured on %s: style tags / escape codes count as visible characters and rows come out ragged" %
+                       ("the formatted text" if formatted_first else "the raw text without a formatter"))
     return ctx.results
